@@ -259,6 +259,22 @@ func (b *c20Builder) populate(v reflect.Value, kpath, cpath string) {
 				b.populate(v.Field(i), kp, cp)
 			}
 		}
+		// flags that say how a TLS block next to them is used (cluster_manager_tls, ...): a block that is configured stays
+		// configuration, and stays secret, whatever such a flag says about its use
+		hasTLS := false
+		for i := 0; i < t.NumField(); i++ {
+			if t.Field(i).Type == c20TLSType && b.sel[kpath+"."+t.Field(i).Name] {
+				hasTLS = true
+			}
+		}
+		if hasTLS {
+			for i := 0; i < t.NumField(); i++ {
+				f := t.Field(i)
+				if f.Type.Kind() == reflect.Bool && strings.Contains(strings.ToLower(f.Tag.Get("json")), "tls") && v.Field(i).CanSet() && b.rng.Bool() {
+					v.Field(i).SetBool(true)
+				}
+			}
+		}
 	}
 }
 
